@@ -12,7 +12,7 @@
    The correspondence run evaluates key_move_b (it must be true) on every legal move it generates; that every legal move
    of every position of D passes it is not proved. *)
 From Coq Require Import NArith ZArith List Bool.
-From Rawr Require Import Consts Bits Magic Position MoveGen MakeMove MakeStages Rules Abs KeySpec KeyFacts HashFacts KeyAbs KeyMove GenSane.
+From Rawr Require Import Consts Bits Magic Position MoveGen MakeMove MakeStages Rules Abs KeySpec KeyFacts HashFacts KeyAbs KeyMove GenSane Closure.
 Import ListNotations.
 Local Open Scope N_scope.
 
@@ -65,6 +65,13 @@ Example C04_premises_example :
   /\ key_move_b (after [mkMv 12 28 NOPIECE; mkMv 8 16 NOPIECE; mkMv 28 36 NOPIECE; mkMv 11 27 NOPIECE]) (mkMv 36 43 NOPIECE) = true.
 Proof. repeat split; vm_compute; reflexivity. Qed.
 
+(* ---- along every sequence of generated legal moves from a position satisfying the invariant (Closure.v): the stored
+   key is the recomputed key, and the recomputed key is the specification's key of the abstract state reached *)
+Theorem C04_key_invariant_along_every_sequence : forall ms p, Inv p -> legal_seq p ms ->
+  let q := fold_left (makemove true) ms p in
+  hash q = calculate_hash q /\ calculate_hash q = KeySpec.spec_key (abs_state q).
+Proof. exact run_keys. Qed.
+
 Print Assumptions C04_key_min_distance.
 Print Assumptions C04_makenull_hash.
 Print Assumptions C04_key_table_size.
@@ -73,3 +80,4 @@ Print Assumptions C04_predicted_key_is_recomputed_key.
 Print Assumptions C04_makemove_stores_prediction.
 Print Assumptions C04_key_invariant_step.
 Print Assumptions C04_every_generated_move_keeps_the_key.
+Print Assumptions C04_key_invariant_along_every_sequence.
